@@ -59,6 +59,14 @@ def swapped_containers(F, fn, depth=2):
             out.append((lp, fn.term(lp["range"])))
     if depth > 0:
         for nd in fn.nodes:
+            if nd["k"] == "CXXMemberCallExpr" and not nd.get("args") and "obj" in nd:
+                # X.Swap...() where the method exchanges the colours of one of its own member containers
+                for cal in F.callees(nd):
+                    if not cal.cfg or cal.key == fn.key or cal.qn == "OP2Utility::Color::SwapRedAndBlue":
+                        continue
+                    for (n2, obj) in swapped_containers(F, cal, depth - 1):
+                        if obj[0] == "mem" and obj[1] == ("this",):
+                            out.append((nd, ("mem", fn.term(nd["obj"]), obj[2])))
             if nd["k"] in CALLS and len(nd.get("args", [])) >= 1:
                 for cal in F.callees(nd):
                     if not cal.cfg or cal.key == fn.key or not cal.params:
